@@ -5,25 +5,43 @@ package client_test
 // BOUNDED leg of C15 (an exhaustive enumeration over a stated finite family, NOT a proof):
 // "Export followed by import reproduces the tree".
 //
-// For every tree of the family (see verifC15Rule for the exact statement) the harness
-//   1. builds the tree below a fresh group node P1 (child of the root of ONE server.TestServer())
-//      with client.SendNode / SendNodePoints / SendEdgePoint(s); one extra child is created and then
+// For every tree of the family (exact statement: the `rule` string of the result) the harness
+//   1. builds the tree below a fresh group node P1 (child of the root of the test server) with
+//      client.SendNode / SendNodePoints / SendEdgePoint(s); one extra child is created and then
 //      deleted (tombstone edge point) and must not be exported;
 //   2. reads it back recursively (client.GetNodes(nc, parent, "all", "", false)) = ORIGINAL, and
 //      checks that the store holds what was built (classes "precondition: ...");
 //   3. exports it with client.ExportNodes(nc, top);
 //   4. leg (a): imports the YAML below a second fresh group P2 with preserveIDs=false;
+//      leg (c): imports the same YAML with preserveIDs=true on a SECOND instance
+//      (server.TestServer("2")) below a group node that has P1's id;
 //      leg (b): deletes the original (client.DeleteNode(top, P1)) and imports the same YAML below
 //      P1 with preserveIDs=true ("restore on the same instance");
-//      leg (c): imports the same YAML with preserveIDs=true on a SECOND instance
-//      (server.TestServer("2"), started once) below a group node that has P1's id;
 //   5. reads the imported subtree back recursively and compares it with ORIGINAL.
 // A pure YAML leg (no server) marshals / unmarshals a client.SiotExport holding every corpus
-// string as point text and as point key.
+// string, every string of length <= 2 (thorough: 3) over a 32-symbol alphabet and a list of
+// values, with the yaml package that client/node.go imports.
+//
+// The family is factorised (string sweep / value sweep / mixed sweep / shape-plain / shape-nasty)
+// because a single scalar that the YAML library cannot read back makes the whole import fail
+// and would otherwise mask every other comparison.
+//
+// Servers: quick uses ONE server.TestServer() (plus ONE second instance for leg (c)) for the
+// whole run. Thorough replaces the pair by a fresh pair every 150 trees (one pair at a time):
+// every read of the store scans all points ever written (no index on node_points.node_id), so a
+// single database makes the run quadratic.
+//
+// The yaml import below must be the package client/node.go imports. For a tree whose client/node.go
+// uses gopkg.in/yaml.v3 (see c15_proposed_fix.diff) inject
+//   sed 's#github.com/goccy/go-yaml#gopkg.in/yaml.v3#' c15_export_import_test.go
+// (only yaml.Marshal / yaml.Unmarshal are used, both packages have them).
 //
 // Env: VERIF_TIER = quick (default) | thorough, VERIF_SEED (default 1, selects the quick sample of
 // depth-3 shapes), VERIF_C15_OUT = file receiving the JSON result, VERIF_C15_WORKERS (default 4),
-// VERIF_C15_LOG=1 keeps the server log, VERIF_C15_NOSECOND=1 skips leg (c).
+// VERIF_C15_RESTART (trees per server pair, 0 = never; default 0 quick / 150 thorough),
+// VERIF_C15_MAXNODES (thorough: node budget of the depth-3 fan-out-3 shapes, default 10),
+// VERIF_C15_LOG=1 keeps the server log, VERIF_C15_PROGRESS=1 prints progress to stderr,
+// VERIF_C15_NOSECOND=1 skips leg (c).
 
 import (
 	"crypto/sha256"
